@@ -3,3 +3,4 @@ pub mod engine;
 pub mod gen;
 pub mod refmodel;
 pub mod corpus;
+pub mod jsmini;
